@@ -307,6 +307,9 @@ def freq_cells(quick):
             add("1-vs-1e5-disjoint", (1, 100000, 0), b, a, q, 16, "u32", 3000, True)
             add("1-in-1e6", (0, 999999, 1), b, a, q, 16, "u16", 1200, True)
             add("1-in-1e6", (0, 999999, 1), b, a, q, 256, "u32", 400, True)
+    # 32-bit registers beyond the 16-bit range: base 1.0002, sets of tens of thousands of items (registers above 65535)
+    for name, tri in (("beyond-u16-balanced", (30000, 30000, 30000)), ("beyond-u16-nested", (0, 40000, 40000))):
+        add(name, tri, 1.0002, 20.0, 2 ** 24 - 2, 16, "u32", 200 * f, True)
     # sketchers built through `Default` (documented defaults b = 1.001, a = 20, q = 2^16 - 2, m = 4096; the harness
     # skips these cells if the crate's defaults are others)
     for name, tri in tiny + [("small-10/10/10", (10, 10, 10))]:
